@@ -177,12 +177,44 @@ class C02(vlib.Driver):
                     ops += selection(n, rng)
             return {"algo": algo, "family": family, "share": share, "netcfg": netcfg, "seed": seed, "pop": nag, "ops": ops}
 
+        def bounds(algo, share, side, seed):
+            """actor-critic algorithms whose networks sit next to a HARD LIMIT (latent dimension, nodes, layers): the
+            architecture method is scripted to the bound-limited ones, so that the policy's own draw frequently does not
+            fit (its call is then a no-op that every other evaluation network must mirror)"""
+            r = random.Random(f"C02-bounds-{algo}-{share}-{side}-{seed}")
+            lim = {"min_hidden_layers": 1, "max_hidden_layers": 2, "min_mlp_nodes": 4, "max_mlp_nodes": 20}
+            if side == "max":
+                cfg = {"latent_dim": 100, "encoder_config": dict(hidden_size=[14, 12], **lim), "head_config": dict(hidden_size=[14], **lim)}
+                lat, others = "add_latent_node", ["encoder.add_node", "head_net.add_node", "head_net.add_layer", "encoder.add_layer"]
+            else:
+                cfg = {"latent_dim": 24, "encoder_config": dict(hidden_size=[6], **lim), "head_config": dict(hidden_size=[6, 6], **lim)}
+                lat, others = "remove_latent_node", ["encoder.remove_node", "head_net.remove_node", "head_net.remove_layer", "encoder.remove_layer"]
+            n = 3 if algo in evo.MULTI else 4
+            ops = train_all(n, r, act=False)
+            ops += [["mutate", {"kinds": ["arch"] * n, "methods": [lat] * n}, r.randrange(1000), False]]
+            ops += train_all(n, r)
+            ops += [["mutate", {"kinds": ["arch"] * n, "methods": [r.choice(others), lat, r.choice(others), lat][:n]}, r.randrange(1000), False]]
+            ops += train_all(n, r, act=False)
+            ops += [["mutate", {"kinds": ["arch"] * n, "methods": [lat, r.choice(others), lat, r.choice(others)][:n]}, r.randrange(1000), False]]
+            ops += train_all(n, r, act=False)
+            return {"algo": algo, "family": "vector", "share": share, "netcfg": "bound-" + side, "cfg": cfg, "seed": seed, "pop": n, "ops": ops}
+
+        ACTOR_CRITIC = ["DDPG", "TD3", "PPO", "MADDPG", "MATD3", "IPPO"]
         only = os.environ.get("VERIF_C02_ONLY")      # developer shortcut for the mutation self-test (never registered)
         for algo in evo.ALGOS:
             for share in ([False, True] if algo in evo.SHARE_CAPABLE else [False]):
                 if only and only not in ("boundary", algo):
                     continue
                 cases.append(boundary(algo, share, 1))
+        for algo in ACTOR_CRITIC:
+            for share in ([False, True] if algo in evo.SHARE_CAPABLE else [False]):
+                if only and only not in ("boundary", "bounds", algo):
+                    continue
+                for side in ("max", "min"):
+                    for sd in ((1,) if tier == "quick" else (1, 2, 3)):
+                        cases.append(bounds(algo, share, side, sd))
+        if only == "bounds":
+            cases = [c for c in cases if str(c["netcfg"]).startswith("bound-")]
         if only:
             self._precompute(cases)
             return cases
@@ -246,7 +278,7 @@ class C02(vlib.Driver):
         import numpy as np
         torch.set_num_threads(1)
         spec = {k: case[k] for k in ("algo", "family", "share", "netcfg", "seed")}
-        shared_cfg = evo.net_config_for(case["netcfg"], case["family"])
+        shared_cfg = json.loads(json.dumps(case["cfg"])) if case.get("cfg") else evo.net_config_for(case["netcfg"], case["family"])
         hp = evo.hp_config_for(case["algo"])
         pop = [evo.build_agent(dict(spec, index=i, _hp_obj=hp), shared_cfg=shared_cfg) for i in range(case["pop"])]
         reg = evo.registry_plus(pop[0])
@@ -271,6 +303,22 @@ class C02(vlib.Driver):
                     m = Rec(p[0], p[1], 0.3, p[2], p[3], p[4], mutation_sd=0.1, rand_seed=int(seed) % 100000, device="cpu",
                             mutate_elite=mspec.get("mutate_elite", True))
                 evo.seed_all(int(seed) + 4242)
+                forced = None
+                if mspec.get("methods"):
+                    # the architecture method the policy "samples" is scripted (module-level helper of mutation.py replaced
+                    # in this process for the duration of the call); everything after the draw is the real code
+                    import agilerl.hpo.mutation as _mm
+                    ks_ = (list(mspec.get("kinds", [])) * len(pop))[:len(pop)]
+                    queue = [mspec["methods"][i % len(mspec["methods"])] for i in range(len(pop)) if i < len(ks_) and ks_[i] == "arch"]
+                    orig_sampler = _mm.get_architecture_mut_method
+
+                    def forced(ev, prob, rng, _q=queue, _o=orig_sampler):
+                        want = _q.pop(0) if _q else None
+                        pol_ = ev[0] if isinstance(ev, list) else ev
+                        if want is not None and want in pol_.mutation_methods:
+                            return want
+                        return _o(ev, prob, rng)
+                    _mm.get_architecture_mut_method = forced
                 before_full = [{n: evo.arch_descr(evo.unwrap(a), n) for n in evals} for a in pop]
                 before_mods = [{n: [getattr(mm, "_orig_mod", mm) for mm in evo._modules_of(getattr(evo.unwrap(a), n))] for n in evals} for a in pop]
                 idx_before = [int(evo.unwrap(a).index) for a in pop]
@@ -280,7 +328,11 @@ class C02(vlib.Driver):
                 before_init = [{n: [json.dumps(_clean(mm.init_dict), sort_keys=True) for mm in before_mods[i][n]] for n in evals}
                                for i in range(len(pop))]
                 try:
-                    out = m.mutation(pop, pre_training_mut=bool(pre))
+                    try:
+                        out = m.mutation(pop, pre_training_mut=bool(pre))
+                    finally:
+                        if forced is not None:
+                            _mm.get_architecture_mut_method = orig_sampler
                 except Exception as e:      # the property presupposes that a population can be mutated at all
                     import traceback
                     rec["kinds"] = list(m.log)
@@ -306,6 +358,18 @@ class C02(vlib.Driver):
                                           for mm in evo._modules_of(getattr(a, n))]
                             tr[n] = {"full": [json.dumps(before_init[i][n]), json.dumps(after_init)],
                                      "sub": [_sub_json(before_init[i][n], meth), _sub_json(after_init, meth)]}
+                            tr[n]["delta"] = _delta(tr[n]["sub"][0], tr[n]["sub"][1])
+                        # a network's delta is comparable with the policy's when the entries either of them changed, and
+                        # the limits, had the same values in both before the mutation (the same call on different sizes
+                        # legitimately has a different effect), and its configuration is maintained at all (the encoder
+                        # configuration of a hook-shared encoder is not)
+                        pol_n = reg["policy"]
+                        for n in evals:
+                            if n == pol_n:
+                                continue
+                            skip = meth is not None and meth.startswith("encoder.") and n in reg.get("share_others", [])
+                            if skip or not _comparable(tr[n], tr[pol_n]):
+                                tr[n]["delta"] = None
                         mem["arch"] = {"method": meth, "label": label, "trans": tr,
                                        "methods": list(evo._modules_of(getattr(a, reg["policy"]))[0].mutation_methods)}
                     hc = a.registry.hp_config
@@ -452,7 +516,8 @@ class C02(vlib.Driver):
 
                         def at(n):
                             t = ar["trans"][n]
-                            return "(mkAT ({}, {}) ({}, {}))".format(sid(t["sub"][0]), sid(t["sub"][1]), sid(t["full"][0]), sid(t["full"][1]))
+                            dl = 0 if t.get("delta") is None else sid("delta:" + t["delta"])
+                            return "(mkAT ({}, {}) ({}, {}) {})".format(sid(t["sub"][0]), sid(t["sub"][1]), sid(t["full"][0]), sid(t["full"][1]), dl)
                         arch.append("(mkAF {} {} [{}])".format("true" if ar["method"] is not None else "false", at(pol),
                                                               "; ".join(at(n) for n in evals if n != pol)))
             if k == "train":
@@ -547,6 +612,11 @@ class C02(vlib.Driver):
                                     out.append(Violation("arch-follow", sig("archfollow", "noop"),
                                                          f"{who}: the policy's mutation was a no-op but {n} changed its architecture"))
                                     break
+                            elif tr.get("delta") is not None and pt.get("delta") is not None and tr["delta"] != pt["delta"]:
+                                out.append(Violation("arch-follow", sig("archdelta", ar["method"].split(".")[-1]),
+                                                     f"{who}: the policy's {ar['method']} changed its configuration by {pt['delta'][:160]} "
+                                                     f"but {n} changed by {tr['delta'][:160]}"))
+                                break
                             elif tr["sub"][0] == pt["sub"][0] and tr["sub"][1] != pt["sub"][1]:
                                 out.append(Violation("arch-follow", sig("archfollow", ar["method"].split(".")[-1]),
                                                      f"{who}: {n} had the policy's {ar['method'].split('.')[0]} configuration before the mutation and a "
@@ -634,6 +704,14 @@ class C02(vlib.Driver):
                 labs.append("choice=" + ("scripted" if "kinds" in o[1] else "drawn"))
                 if o[1].get("mutate_elite") is False:
                     labs.append("mutate_elite=False")
+                for mem_ in r.get("members", []):
+                    ar_ = mem_.get("arch")
+                    if ar_:
+                        pd = ar_["trans"][mem_["policy"]].get("delta")
+                        if ar_["method"] is not None and pd is not None and all(not x for x in json.loads(pd)):
+                            labs.append("arch=policy-call-was-a-no-op(bound)")
+                        ncmp = sum(1 for n_, t_ in ar_["trans"].items() if n_ != mem_["policy"] and t_.get("delta") is not None)
+                        labs.append("archdelta=compared-networks:%d" % min(ncmp, 3))
                 for kk, lab in zip(r.get("kinds", []), r.get("labels", [])):
                     labs.append("kind=" + kk)
                     if kk == "arch":
@@ -700,6 +778,69 @@ def _clean(d):
     if isinstance(d, np.floating):
         return float(d)
     return type(d).__name__ + ":" + str(d)
+
+
+def _delta(sub_before, sub_after):
+    """numeric delta of the addressed sub-configuration, per module: {path: difference} for changed numbers, element-wise
+    for number lists of unchanged length, ("len", +k, new tail) for a list that grew/shrank at its end.  None = not
+    comparable between differently shaped networks (other structural changes)."""
+    if sub_before == "-" or sub_after == "-":
+        return None
+    B, A = json.loads(sub_before), json.loads(sub_after)
+    if len(B) != len(A):
+        return None
+    num = lambda x: isinstance(x, (int, float)) and not isinstance(x, bool)
+
+    def walk(b, a, path, out):
+        if b == a:
+            return True
+        if num(b) and num(a):
+            out[path] = a - b
+            return True
+        if isinstance(b, dict) and isinstance(a, dict) and set(b) == set(a):
+            return all(walk(b[k], a[k], f"{path}.{k}", out) for k in sorted(b))
+        if isinstance(b, list) and isinstance(a, list) and all(num(x) for x in b + a):
+            if len(b) == len(a):
+                out[path] = [y - x for x, y in zip(b, a)]
+                return True
+            n = min(len(b), len(a))
+            if b[:n] == a[:n]:
+                out[path] = ["len", len(a) - len(b), a[n:] if len(a) > len(b) else []]
+                return True
+        return False
+    res = []
+    for (hb, b), (ha, a) in zip(B, A):
+        out = {}
+        if hb != ha or not walk(b, a, "", out):
+            return None
+        res.append(out)
+    return json.dumps(res, sort_keys=True)
+
+
+def _comparable(tn, tp):
+    if tn.get("delta") is None or tp.get("delta") is None:
+        return False
+    Bn, Bp = json.loads(tn["sub"][0]), json.loads(tp["sub"][0])
+    Dn, Dp = json.loads(tn["delta"]), json.loads(tp["delta"])
+    if not (len(Bn) == len(Bp) == len(Dn) == len(Dp)):
+        return False
+
+    def get(d, path):
+        for k in [x for x in path.split(".") if x]:
+            if not isinstance(d, dict) or k not in d:
+                return ("missing",)
+            d = d[k]
+        return d
+    for (hn, bn), (hp_, bp), dn, dp in zip(Bn, Bp, Dn, Dp):
+        if hn != hp_ or not isinstance(bn, dict) or not isinstance(bp, dict):
+            return False
+        for path in set(dn) | set(dp):
+            if get(bn, path) != get(bp, path):
+                return False
+        for k in set(bn) | set(bp):
+            if ("min_" in k or "max_" in k) and bn.get(k) != bp.get(k):
+                return False
+    return True
 
 
 def _sub_json(init_jsons, method):
